@@ -115,6 +115,11 @@ func checkC11(c *Ctx) {
 	c.tbeErrFlow(clauseTerm)
 	// lock discipline of the hash map
 	c.hashMapLocks("LOCKSET")
+	c.Decides("GLOBAL-MUT: no function of the library packages (tree, io/*, support, hashmap, acr, asr, mutils, draw ...) stores into a package-level variable or mutates one through a pointer-receiver method: independent calls share no hidden state")
+	ng, _ := c.globalMut("GLOBAL-MUT", []string{"tree", "io/newick", "io/nexus", "io/phyloxml", "io/nextstrain", "io/utils", "io/fileutils", "support", "hashmap", "acr", "asr", "mutils"}, "no data races; same results as the single-threaded computation")
+	if ng < 300 {
+		c.Undecided("GLOBAL-MUT", "scan-count", 0, fmt.Sprintf("only %d library functions seen", ng))
+	}
 	c.Decides("RLOCK-WRITE: a method that takes only the read lock of its receiver stores nothing reached from that receiver; COPYLOCK: no method or function takes a lock-holding struct (sync.Mutex / RWMutex / WaitGroup inside) by value")
 	nr, _ := c.rlockWrite("RLOCK-WRITE", c.AllFuncs())
 	c.Extra["read_locked_methods"] = nr
